@@ -48,6 +48,19 @@ type stream struct {
 	calls    int
 	closedAt time.Time
 	reads    int
+
+	// lagUntil: the local Close that ended this stream does not interrupt calls
+	// that are blocked in it (or arrive) before this instant; they fail then.
+	lagUntil time.Time
+}
+
+// waitLag is called with s.mu held when a local Close has ended the stream.
+func (s *stream) waitLag() {
+	if d := time.Until(s.lagUntil); d > 0 {
+		s.mu.Unlock()
+		time.Sleep(d)
+		s.mu.Lock()
+	}
 }
 
 func newStream() *stream {
@@ -61,6 +74,7 @@ func (s *stream) read(p []byte) (int, error) {
 	defer s.mu.Unlock()
 	for {
 		if s.rclosed {
+			s.waitLag()
 			return 0, net.ErrClosed
 		}
 		if len(s.chunks) > 0 {
@@ -108,6 +122,9 @@ func (s *stream) write(p []byte) (int, error) {
 	n := 0
 	for {
 		if s.rclosed || s.wclosed {
+			if s.wclosed {
+				s.waitLag()
+			}
 			return n, io.ErrClosedPipe
 		}
 		if len(p) == 0 {
@@ -168,6 +185,16 @@ type End struct {
 	closed   bool
 	closedAt time.Time
 	closes   int
+	closeLag time.Duration
+}
+
+// SetCloseLag makes this end behave like a transport whose Close does not
+// interrupt pending I/O at once: Reads and Writes of this end that are blocked
+// when Close is called (or arrive within d of it) fail only d later.
+func (e *End) SetCloseLag(d time.Duration) {
+	e.cmu.Lock()
+	e.closeLag = d
+	e.cmu.Unlock()
 }
 
 // Pipe returns the library side and the harness (peer) side of a fresh transport.
@@ -192,7 +219,17 @@ func (e *End) Close() error {
 	}
 	e.closed = true
 	e.closedAt = time.Now()
+	lag := e.closeLag
 	e.cmu.Unlock()
+	if lag > 0 {
+		until := e.closedAt.Add(lag)
+		e.out.mu.Lock()
+		e.out.lagUntil = until
+		e.out.mu.Unlock()
+		e.in.mu.Lock()
+		e.in.lagUntil = until
+		e.in.mu.Unlock()
+	}
 	e.out.closeWrite(nil)
 	e.in.closeRead()
 	return nil
